@@ -182,8 +182,8 @@ def join_aux(source_name, source_key, source_delete,  # noqa: C901
     # We will store db keys as boolean flags:
     # - False -> inserted/not used
     # - True -> inserted/used
-    db_keys_usage = KVFile()
-    db = KVFile()
+    db_keys_usage = None
+    db = None
 
     # Mode of join operation
     if full is not None:
@@ -369,6 +369,10 @@ def join_aux(source_name, source_key, source_delete,  # noqa: C901
         datapackage['resources'] = new_resources
 
     def func(package: PackageWrapper):
+        # the stores live for one run: they are closed at its end and the step may run again
+        nonlocal db, db_keys_usage
+        db_keys_usage = KVFile()
+        db = KVFile()
         process_datapackage(package.pkg.descriptor)
         yield package.pkg
         yield from new_resource_iterator(package)
